@@ -291,16 +291,35 @@ func seedDoc(t *rapid.T, f format, w *gen.World) []byte {
 		if len(w.Store) == 0 {
 			return representative(f)
 		}
-		return mustJSON("entity", conv.ToEntity(w.Store[rapid.IntRange(0, len(w.Store)-1).Draw(t, "entidx")]))
+		e := conv.ToEntity(w.Store[rapid.IntRange(0, len(w.Store)-1).Draw(t, "entidx")])
+		if b, ok := guarded(func() []byte { return mustJSON("entity", e) }); ok {
+			return b
+		}
+		return representative(f)
 	case fEntityMapJSON:
-		return mustJSON("entity map", conv.ToEntityMap(w.Store))
+		if b, ok := guarded(func() []byte { return mustJSON("entity map", conv.ToEntityMap(w.Store)) }); ok {
+			return b
+		}
+		return representative(f)
 	case fValueJSON:
 		if gen.Chance(t, 25, "implicit") {
 			return []byte(gen.Pick(t, implicitValueSeeds, "implicitseed"))
 		}
-		return mustJSON("value", conv.ToValue(gen.Value(t, 3, valOpts(t))))
+		// half of the value seeds are written by the harness's own writer: a seed must not depend on the encoder under test
+		// (an encoder that panics on some value would otherwise remove exactly that value from the seeds)
+		v := gen.Value(t, 3, valOpts(t))
+		if gen.Chance(t, 50, "ownvalue") {
+			return render.ValueJSON(v, render.JSONOpts{})
+		}
+		if b, ok := guarded(func() []byte { return mustJSON("value", conv.ToValue(v)) }); ok {
+			return b
+		}
+		return render.ValueJSON(v, render.JSONOpts{})
 	case fRequestJSON:
-		return mustJSON("request", conv.ToRequest(w.Req))
+		if b, ok := guarded(func() []byte { return mustJSON("request", conv.ToRequest(w.Req)) }); ok {
+			return b
+		}
+		return representative(f)
 	case fUIDText:
 		if gen.Chance(t, 50, "uidpool") {
 			return []byte(gen.Pick(t, uidSeeds, "uidseed"))
